@@ -68,6 +68,8 @@ class Knobs:
     def __init__(self, **kw):
         self.latency = 0.0            # answer latency (virtual seconds)
         self.silent_from = None       # index into STEPS from which no answers are given
+        self.answer_gap = 0.0         # pause between a step's extra frames and its answer
+        self.extra_when_silent = False  # the extra frames of a step are sent although unanswered
         self.silent_kinds = set()     # request kinds never answered
         self.segmenter = None         # bytes -> list[(delay_before, segment)]
         self.extra = None             # (step_kind, console) -> list[frame bytes] before answer
@@ -250,6 +252,10 @@ class SimConsole:
         if k in STEPS:
             idx = STEPS.index(k)
             if kn.silent_from is not None and idx >= kn.silent_from:
+                # no answer; unrelated traffic may go on nevertheless
+                if kn.extra is not None and kn.extra_when_silent:
+                    for raw in kn.extra(k, self) or []:
+                        self.send(conn, raw, kn.latency)
                 return
         if k in kn.silent_kinds:
             return
@@ -264,6 +270,7 @@ class SimConsole:
         out = []
         if kn.extra is not None and k in STEPS:
             out.extend(kn.extra(k, self) or [])
+        n_extra = len(out)
         zero_zones = not self.inst["zones"]
         if k == "version_request":
             out.append(self.frame_version(f.pid))
@@ -288,10 +295,11 @@ class SimConsole:
             out.append(self.frame_error(cmd["ac"], f.pid))
         elif kn.apply_commands:
             out.extend(self._apply(f, cmd))
-        first = True
-        for raw in out:
-            self.send(conn, raw, lat if first else 0.0)
-            first = False
+        for i, raw in enumerate(out):
+            d = lat if i == 0 else 0.0
+            if i == n_extra and n_extra and kn.answer_gap:
+                d += kn.answer_gap   # the extra frames arrive first, the answer a while later
+            self.send(conn, raw, d)
 
     # command application (only what the workloads need: enough for the model
     # to move; C04/C11 judge the frames themselves, not this state machine)
